@@ -49,7 +49,10 @@ def col (j : Json) : R Col := do
   pure ⟨← strF j "name", ← strF j "ty", ← boolF j "nullable", ← val ((j.getObjVal? "val").toOption.getD Json.null)⟩
 
 def request (j : Json) : R Request := do
-  pure ⟨← (← arrF j "cols").mapM col, ← natF j "rows", ← boolF j "ipcValid"⟩
+  let ptr ← match fieldOpt j "pointer" with
+    | none => pure none
+    | some p => do pure (some (← (← arr p).mapM col))
+  pure ⟨← (← arrF j "cols").mapM col, ← natF j "rows", ← boolF j "ipcValid", ptr⟩
 
 def valTag : Val → String
   | .null => "null" | .str _ => "str" | .bytes _ => "bytes" | .list _ _ => "list" | .other => "other"
